@@ -308,6 +308,11 @@ def replay(ctx, path):
         body = json.load(f)
     ctx.safe_regenerate(regenerate)
     r = body['record']
+    if isinstance(r.get('hint'), str):
+        # a probe outside the modelled grammar (extra_hints / same_repr_probe): re-run it and show that entry
+        extra = run_impl('c19_impl.py', {'extra_coherence': True, 'cases': []})[0]
+        print(json.dumps({r['hint']: extra.get(r['hint'])}))
+        return
     hs = [r[k] for k in ('A', 'B', 'C') if k in r] or [r.get('hint')]
     print(json.dumps(run_impl('c19_impl.py', {'cases': [{'hints': hs, 'values': [r['object']] if 'object' in r else [],
                                                        'coherence': True}]})[0]))
